@@ -187,6 +187,23 @@ class Cls:
 
 
 @dataclasses.dataclass
+class InitPart:
+    """part of an `__init__` that is NOT a list of `self.<field> = <expr>` statements: the leading guards `if c: raise E(...)` and the
+    value finally assigned to each attribute of `fields`.  Emitted as `<lean> params : M (field₁ × field₂ × …)` (raises iff a guard
+    fires).  Accepted only if (i) the guards are the first statements, (ii) no other `raise` / `return` occurs anywhere in the body,
+    (iii) the LAST assignment of each listed attribute is a top-level `self.<field> = <expr>` (so it overwrites every earlier one)
+    whose right-hand side mentions only parameters that are never reassigned.  Every other statement is skipped: what it computes
+    (and whether a library constructor it calls raises) is outside this function."""
+    file: str
+    cls: str
+    lean: str
+    params: list            # (python name, type | UNUSED), without `self`
+    fields: list            # (attribute, type)
+    binders: str = ""
+    doc: str = ""
+
+
+@dataclasses.dataclass
 class V:
     ty: object = None
     code: str = ""
@@ -1295,6 +1312,62 @@ class Gen:
         for f, t in c.fields:
             self.fields[(c.ty[0] if isinstance(c.ty, tuple) else c.ty, f)] = t
 
+    def do_init_part(self, c):
+        node = self.find(c.file, c.cls + ".__init__")
+        fn = Fn(c.file, c.cls + ".__init__", c.lean, c.params, binders=c.binders)
+        tr = Tr(self, fn, node, c.lean, c.params)
+        tr.check_signature(node, True)
+        if node.decorator_list:
+            raise Refuse("decorated `__init__`")
+        tr.enter()
+        body = [b for b in node.body if not (isinstance(b, ast.Expr) and isinstance(b.value, ast.Constant))]
+        k = 0
+        while k < len(body) and tr.is_guard(body[k]):
+            tr.do_guard(body[k])
+            k += 1
+        rest = body[k:]
+        for st in rest:
+            for x in ast.walk(st):
+                if isinstance(x, (ast.Raise, ast.Return, ast.Try, ast.While, ast.With)):
+                    raise Refuse(f"`{type(x).__name__.lower()}` after the leading guards of `__init__`: `{ast.unparse(x)[:50]}`")
+        stored = {x.id for st in body for x in ast.walk(st) if isinstance(x, ast.Name) and isinstance(x.ctx, ast.Store)}
+        pnames = {p for p, t in c.params if t != UNUSED}
+
+        def assigns(st, f):
+            return any(isinstance(x, ast.Attribute) and isinstance(x.ctx, ast.Store) and x.attr == f and isinstance(x.value, ast.Name)
+                       and x.value.id == "self" for x in ast.walk(st))
+
+        vals = []
+        for f, t in c.fields:
+            idx = [i for i, st in enumerate(rest) if assigns(st, f)]
+            if not idx:
+                raise Refuse(f"`__init__` never assigns `self.{f}`")
+            st = rest[idx[-1]]
+            if not (isinstance(st, ast.Assign) and len(st.targets) == 1 and isinstance(st.targets[0], ast.Attribute)
+                    and isinstance(st.targets[0].value, ast.Name) and st.targets[0].value.id == "self" and st.targets[0].attr == f):
+                raise Refuse(f"the last assignment of `self.{f}` is not a top-level `self.{f} = <expr>`: `{ast.unparse(st)[:60]}`")
+            for x in ast.walk(st.value):
+                if isinstance(x, ast.Name) and (x.id not in pnames or x.id in stored):
+                    raise Refuse(f"`self.{f} = {ast.unparse(st.value)[:50]}` mentions `{x.id}`, which is not a never-reassigned parameter")
+            tr.pure_only += 1
+            try:
+                vals.append(tr.coerce(tr.ex(st.value), t))
+            finally:
+                tr.pure_only -= 1
+        if any(l[0] != "guard" for l in tr.blk.lines):
+            raise Refuse("a guard of `__init__` calls a primitive that can raise")
+        final = vals[0].code if len(vals) == 1 else "(" + ", ".join(v.code for v in vals) + ")"
+        monadic = bool(tr.blk.lines)
+        text = tr.compose(tr.blk.lines, final, monadic)
+        rty = " × ".join(paren(self.lean_ty(t)) for _, t in c.fields)
+        if monadic:
+            rty = self.sheet.MONAD["type"].format(paren(rty))
+        ptxt = " ".join(f"({tr.lname(p)} : {self.lean_ty(t)})" for p, t in c.params if t != UNUSED)
+        what = ", ".join(f"`self.{f}`" for f, _ in c.fields)
+        self.emit("\n".join([f"/-- `{c.file}` :: `{c.cls}.__init__`: the leading guards and the values finally assigned to {what}{(' — ' + c.doc) if c.doc else ''} -/",
+                             f"def {c.lean} {c.binders}{' ' if c.binders else ''}{ptxt} : {rty} :=", "  " + text, ""]))
+        self.check_bindings(c.file)
+
     def run(self):
         sheet, errors = self.sheet, []
         for (head, f), t in getattr(sheet, "FIELDS", {}).items():
@@ -1306,6 +1379,9 @@ class Gen:
             try:
                 if isinstance(item, Cls):
                     self.do_class(item)
+                    continue
+                if isinstance(item, InitPart):
+                    self.do_init_part(item)
                     continue
                 node = self.find(item.file, item.qual)
                 is_method = "." in item.qual
@@ -1321,7 +1397,7 @@ class Gen:
             except (Refuse, OSError, SyntaxError) as ex:
                 del self.out[mark:]
                 self.needed, self.needed_fns = saved
-                errors.append({"target": name, "error": f"{item.file}::{getattr(item, 'qual', getattr(item, 'name', '?'))}: {ex}"})
+                errors.append({"target": name, "error": f"{item.file}::{getattr(item, 'qual', getattr(item, 'name', getattr(item, 'cls', '?')))}: {ex}"})
                 self.emit(f"-- UNTRANSLATABLE {name}: {ex}\n")
                 if isinstance(item, Fn):
                     if "." in item.qual and item.self_ty is not None:
